@@ -88,6 +88,7 @@ type FuncContract struct {
 	Uses       []string
 	Abstract   []string         // spec functions treated as uninterpreted (over the heaps they read) in this function
 	Fuel       int              // rounds of ground unfolding of recursive specs in this function (0: default 2)
+	Snapshots  []WitnessDef     // ghost values captured at an anchor: snapshot name = expr @anchor
 	Checks     []AnchoredAssert // return-time assertions over locals (not exported to callers)
 	Pure       bool             // assume func: result is a function of args only (deterministic)
 	Asserts    []AnchoredAssert
@@ -164,7 +165,7 @@ var directiveKW = map[string]bool{
 	"global": true, "model": true, "requires": true, "ensures": true, "assigns": true,
 	"loop": true, "inline": true, "abstract": true, "results": true, "trusted": true, "reads": true,
 	"induction": true, "let": true, "axiom": true, "deterministic": true, "trigger": true,
-	"assert": true, "use": true, "by": true, "fuel": true, "check": true, "witness": true,
+	"assert": true, "use": true, "by": true, "fuel": true, "snapshot": true, "check": true, "witness": true,
 }
 
 type rawDirective struct {
@@ -412,6 +413,18 @@ func parseContractFile(path, pkg string) (*ContractFile, error) {
 				for _, f := range strings.Split(d.text, ",") {
 					cur.Uses = append(cur.Uses, strings.TrimSpace(f))
 				}
+			case "snapshot":
+				if cur == nil {
+					perr = fail(d, "snapshot outside func")
+					return
+				}
+				seq := strings.Index(d.text, "=")
+				sat := strings.LastIndex(d.text, "@")
+				if seq < 0 || sat < seq {
+					perr = fail(d, "expected: snapshot name = expr @anchor")
+					return
+				}
+				cur.Snapshots = append(cur.Snapshots, WitnessDef{Name: strings.TrimSpace(d.text[:seq]), Anchor: strings.TrimSpace(d.text[sat+1:]), E: parseExprString(d.text[seq+1 : sat])})
 			case "fuel":
 				if cur == nil {
 					perr = fail(d, "fuel outside func")
